@@ -27,7 +27,8 @@ type Push struct {
 // Case is one sandboxed execution.
 type Case struct {
 	Note   string `json:"note,omitempty"`
-	Prepop string `json:"prepop"`          // empty | d | ds | sub | full (see prepopParts)
+	Fix    string `json:"fixed_by,omitempty"`
+	Prepop string `json:"prepop"`           // empty | d | ds | sub | full (see prepopParts)
 	RelWD  bool   `json:"rel_wd,omitempty"` // file.New gets a path relative to the process directory
 	Pushes []Push `json:"pushes"`
 }
@@ -163,7 +164,7 @@ func titleCase(i int) Case {
 		}
 		i -= n
 	}
-	t := strings.Join(segs, "/")
+	t := strings.TrimLeft(strings.Join(segs, "/"), "/") // never a bare absolute path
 	switch form {
 	case 1:
 		t = "$WD/" + t
@@ -172,7 +173,7 @@ func titleCase(i int) Case {
 	}
 	p := Push{Kind: "blob", Title: t}
 	if kind == 1 {
-		p = Push{Kind: "archive", Title: t, Entries: []Entry{dir(t + "/zd"), reg(t + "/zd/z"), reg(t + "/z")}}
+		p = Push{Kind: "archive", Title: t, Entries: []Entry{dir(join(t, "zd")), reg(join(t, "zd/z")), reg(join(t, "z"))}}
 	}
 	return Case{Prepop: "sub", Pushes: []Push{p}}
 }
@@ -203,7 +204,20 @@ func join(parts ...string) string {
 	return strings.Join(out, "/")
 }
 
+// safe keeps every generated path inside the sandbox: a bare absolute path
+// (possible when an empty title or segment leads) is re-rooted at $ROOT.
+func safe(s string) string {
+	if strings.HasPrefix(s, "/") {
+		return "$ROOT" + s
+	}
+	return s
+}
+
 func genName(rng *rand.Rand, title string, earlier []Entry) string {
+	return safe(genName0(rng, title, earlier))
+}
+
+func genName0(rng *rand.Rand, title string, earlier []Entry) string {
 	segs := func(n int) string {
 		s := make([]string, n)
 		for i := range s {
@@ -249,6 +263,10 @@ func genName(rng *rand.Rand, title string, earlier []Entry) string {
 func cleanRel(s string) string { return filepath.Clean(strings.TrimPrefix(s, "$WD/")) }
 
 func genTarget(rng *rand.Rand, title, name string, earlier []Entry) string {
+	return safe(genTarget0(rng, title, name, earlier))
+}
+
+func genTarget0(rng *rand.Rand, title, name string, earlier []Entry) string {
 	var links []Entry
 	for _, e := range earlier {
 		if e.T == "sym" || e.T == "link" {
@@ -355,6 +373,7 @@ func cloneCase(c Case) Case {
 func mutate(rng *rand.Rand, c Case) Case {
 	c = cloneCase(c)
 	c.Note = "mutant of: " + c.Note
+	c.Fix = ""
 	for n := 1 + rng.IntN(3); n > 0; n-- {
 		var arch []int
 		for i, p := range c.Pushes {
@@ -445,6 +464,7 @@ func genFollowUp(rng *rand.Rand, c Case) Push {
 	default:
 		title = pick(rng, []string{"../victim", "$ROOT/a/victim", "pkg2", "", ".", "$WD", "$WD/../victim", "pkg/../../victim"})
 	}
+	title = safe(title)
 	switch r := rng.IntN(100); {
 	case r < 55:
 		return Push{Kind: "blob", Title: title}
